@@ -234,3 +234,94 @@ def resolve_locals(fn, node, depth=4):
             if isinstance(x, ast.Name) and x.id == params[0]:
                 x.id = 'number'
     return ast.fix_missing_locations(out)
+
+
+def reach_private(tree, fn, depth=3):
+    """fn and the private module-level functions (names starting with `_`) it calls, transitively: code that a refactoring moved
+    into a helper is still "in" the function for rules that ask what a function does."""
+    mods = {n.name: n for n in tree.body if isinstance(n, ast.FunctionDef)}
+    out = [fn]
+    seen = {fn.name}
+    frontier = [fn]
+    for _ in range(depth):
+        nxt = []
+        for f in frontier:
+            for c in ast.walk(f):
+                if isinstance(c, ast.Call) and isinstance(c.func, ast.Name) and c.func.id.startswith('_') and c.func.id in mods and c.func.id not in seen:
+                    seen.add(c.func.id)
+                    out.append(mods[c.func.id])
+                    nxt.append(mods[c.func.id])
+        frontier = nxt
+    return out
+
+
+def inline_statement_helpers(tree, fn, exclude=()):
+    """A copy of fn's body in which `x = helper(a, ...)` / `return helper(a, ...)` with a private module-level helper whose body
+    is `return <expr>` or `try: return <expr> except ...: raise ...` is replaced by the helper's statement(s) with the
+    parameters substituted, `try/except-that-raises/else` is flattened to the try followed by the else body, and a temporary
+    assigned from a call and used once in the following statement is substituted.  For rules that read a pipeline statement by
+    statement."""
+    import copy
+    mods = {n.name: n for n in tree.body if isinstance(n, ast.FunctionDef)}
+
+    def expand(st):
+        tgt = None
+        call = None
+        if isinstance(st, ast.Assign) and len(st.targets) == 1 and isinstance(st.value, ast.Call):
+            tgt, call = st.targets[0], st.value
+        elif isinstance(st, ast.Return) and isinstance(st.value, ast.Call):
+            call = st.value
+        if call is None or not isinstance(call.func, ast.Name) or not call.func.id.startswith('_') or call.func.id not in mods or call.keywords \
+                or call.func.id in exclude:
+            return [st]
+        h = mods[call.func.id]
+        hb = strip_doc(h.body)
+        params = [a.arg for a in h.args.args]
+        if len(params) != len(call.args) or h.args.defaults or h.args.vararg or h.args.kwarg:
+            return [st]
+        sub = _Subst(dict(zip(params, call.args)))
+
+        def finish(expr):
+            e = sub.visit(copy.deepcopy(expr))
+            new = ast.Assign(targets=[copy.deepcopy(tgt)], value=e) if tgt is not None else ast.Return(value=e)
+            return ast.fix_missing_locations(ast.copy_location(new, st))
+        if len(hb) == 1 and isinstance(hb[0], ast.Return) and hb[0].value is not None:
+            # only when no parameter is used twice with a non-trivial argument (evaluation count) - arguments here are names
+            if all(isinstance(a, (ast.Name, ast.Constant)) for a in call.args):
+                return [finish(hb[0].value)]
+            return [st]
+        if len(hb) == 1 and isinstance(hb[0], ast.Try) and len(hb[0].body) == 1 and isinstance(hb[0].body[0], ast.Return) \
+                and not hb[0].orelse and not hb[0].finalbody and all(isinstance(a, (ast.Name, ast.Constant)) for a in call.args):
+            t = copy.deepcopy(hb[0])
+            t.body = [finish(hb[0].body[0].value)]
+            t.handlers = [sub.visit(x) for x in t.handlers]
+            return [ast.fix_missing_locations(ast.copy_location(t, st))]
+        return [st]
+    body = []
+    for st in strip_doc(fn.body):
+        # try / except (raises) / else  ->  try ; else-body
+        if isinstance(st, ast.Try) and st.orelse and not st.finalbody and all(h.body and isinstance(h.body[-1], ast.Raise) for h in st.handlers):
+            t = copy.deepcopy(st)
+            rest = t.orelse
+            t.orelse = []
+            body.append(t)
+            body.extend(rest)
+        else:
+            body.append(st)
+    # x = f(g(x)) with x a plain name: the two steps one after the other
+    flat = []
+    for st in body:
+        if isinstance(st, ast.Assign) and len(st.targets) == 1 and isinstance(st.targets[0], ast.Name) and isinstance(st.value, ast.Call) \
+                and len(st.value.args) == 1 and not st.value.keywords and isinstance(st.value.args[0], ast.Call) and len(st.value.args[0].args) == 1 \
+                and isinstance(st.value.args[0].args[0], ast.Name) and st.value.args[0].args[0].id == st.targets[0].id and not st.value.args[0].keywords:
+            t = st.targets[0].id
+            first = ast.copy_location(ast.Assign(targets=[ast.Name(id=t, ctx=ast.Store())], value=copy.deepcopy(st.value.args[0])), st)
+            second = copy.deepcopy(st)
+            second.value.args[0] = ast.Name(id=t, ctx=ast.Load())
+            flat.extend([ast.fix_missing_locations(first), ast.fix_missing_locations(second)])
+        else:
+            flat.append(st)
+    out = []
+    for st in flat:
+        out.extend(expand(st))
+    return out
